@@ -453,6 +453,14 @@ def produce (raw : RawResult) : Result :=
 
 def tokenize (doc : Bytes) : Result := produce (rawTokens doc)
 
+/-! ## ground truth for positions (C14) -/
+
+/-- position after reading `bs` starting at `p` (count `\n`, byte columns) -/
+def advanceAll (p : Pos) (bs : Bytes) : Pos := bs.foldl advance p
+
+/-- position of byte offset `pre.length` in a document that starts with `pre` -/
+def posOf (pre : Bytes) : Pos := advanceAll ⟨0, 0⟩ pre
+
 /-! ## input assumptions used as hypotheses of theorems -/
 
 /-- The input is a Rust `&str`. `Valid` is deliberately *weaker* than well-formed UTF-8 (it only
